@@ -222,10 +222,9 @@ def run(ctx: Ctx):
     from . import util as _u19
     from .c01 import REF_EXPR2SYMBOLS
 
-    e2 = sm.func("expressions.py", "build_expression.expr2symbols")
-    kt = ("sym", f"{e2.params[0]}.data")
-    cur_c = _u19.dispatch_cases(_u19.value_of(ctx, e2), kt)
-    ref_c = _u19.dispatch_cases(_u19.reference_value(ctx, "expressions.py", "build_expression.expr2symbols", REF_EXPR2SYMBOLS), kt)
+    e2, cur_v19, ref_v19, kt = common.builder_values(ctx, REF_EXPR2SYMBOLS)
+    cur_c = _u19.dispatch_cases(cur_v19, kt)
+    ref_c = _u19.dispatch_cases(ref_v19, kt)
     vd = _u19.verdict(cur_c.get("constant", cur_c[None]), [ref_c["constant"]])
     if vd == "unknown":
         ctx.undecided("R19.d", e2.key("pi"), "what build_expression builds for constants is not understood", e2.where())
